@@ -270,9 +270,12 @@ def step(cfg, a0, b0, a1, b1, a2, b2, c0, d0, t, l, q, pb, pi):
             ok = inv.events_ok(tl2, q, bit(S["Pf"]), bit(S["Pr"]), bit(S["Mf"]), bit(S["Mr"]), S["minlen"])
         if not ok:
             return False
-        # events of other pairs at q are untouched
+        # events of other pairs at q are untouched (identity first: an untouched bit is the very same symbolic object)
         for x in (OTH_P, OTH_M) + ((S["Bp"], S["Bm"]) if S["by"] else ()):
-            if sbool(bit(x)) != sbool(pre_pres_q & _get(pre_bits_q, x)):
+            b0 = _get(pre_bits_q, x)
+            if pr is pre_pres_q and inn is not None and inn.bit(x) is b0:
+                continue
+            if sbool(bit(x)) != sbool(pre_pres_q & b0):
                 return False
         return True
     if what == 'trace':
